@@ -176,6 +176,11 @@ pub fn dates(thorough: bool) -> Vec<NaiveDate> {
     for &y in [1969, 1970, 2069, 2070, 1900, 2100].iter() {
         add(y, 1, 1); add(y, 12, 31); add(y, 6, 15);
     }
+    // binary scales of the year (+-2^k and neighbours, thinned): the middle of the range
+    for (i, k) in (6..=17u32).enumerate() { for (j, y) in [(1i32 << k) - 1, 1 << k, (1 << k) + 1, 3 << (k - 1)].into_iter().enumerate() {
+        if !thorough && (i + j) % 2 != 0 { continue; }
+        for s in [1, -1] { add(s * y, 1 + (k % 12), 1 + k); }
+    } }
     if thorough {
         // every day of a few whole years (all ordinals, all week numbers)
         for y in [-262143, -1, 0, 9999, 10000, 262142, 2023, 2024] {
